@@ -92,6 +92,7 @@ def execute(mod, choices=None, seed=None):
     res['shape'] = hashlib.blake2b(repr(ctx.shape).encode(), digest_size=8).hexdigest()
     res['sample'] = ctx.sample
     res['notes'] = ctx.notes
+    res['tags'] = ctx.tags
     res['digest'] = int.from_bytes(hashlib.blake2b(repr((ch.values, ctx.shape, sorted(ctx.counts.items()),
                                                          res['violation'] and res['violation']['sig'],
                                                          res['aborted'] and res['aborted']['sig'])).encode(),
@@ -104,7 +105,8 @@ def _worker(args):
     faulthandler.dump_traceback_later(max(60, deadline - time.time() + 120), exit=True)
     mod = __import__(modname, fromlist=['x'])
     out = {'done': 0, 'counts': {}, 'faults': {}, 'shapes': set(), 'nontrivial': 0, 'violations': [],
-           'aborted': {}, 'samples': [], 'abort_examples': {}, 'harness': None, 'choices_total': 0, 'digest': 0}
+           'aborted': {}, 'samples': [], 'abort_examples': {}, 'harness': None, 'choices_total': 0, 'digest': 0,
+           'tags': set()}
     for r in runs:
         if time.time() > deadline:
             break
@@ -117,6 +119,7 @@ def _worker(args):
         out['done'] += 1
         out['digest'] = (out['digest'] + res['digest']) % (1 << 64)
         out['choices_total'] += len(res['choices'])
+        out['tags'] |= res['tags']
         for k, v in res['counts'].items():
             out['counts'][k] = out['counts'].get(k, 0) + v
         for k, v in res['faults'].items():
@@ -208,6 +211,14 @@ def minimise(mod, choices, info, budget_s=60, max_exec=400):
     return best, {'executions': n_exec, 'seconds': round(time.time() - t0, 2)}
 
 
+def distinct_by_kind(tags):
+    out = {}
+    for t in tags:
+        k = t.split(':', 1)[0]
+        out[k] = out.get(k, 0) + 1
+    return dict(sorted(out.items()))
+
+
 def git_id(path):
     try:
         return subprocess.run(['git', '-C', path, 'rev-parse', '--short', 'HEAD'], capture_output=True,
@@ -280,7 +291,7 @@ def main(mod, argv=None):
     chunks = [list(range(i, min(runs, i + chunk))) for i in range(0, runs, chunk)]
     print(f'[{mod.ID}] VERIF_SEED={seed} tier={tier} runs={runs} workers={workers} pokerkit={boot.ROOT}', flush=True)
     agg = {'done': 0, 'counts': {}, 'faults': {}, 'shapes': set(), 'nontrivial': 0, 'violations': [],
-           'aborted': {}, 'samples': [], 'abort_examples': {}, 'choices_total': 0, 'digest': 0}
+           'aborted': {}, 'samples': [], 'abort_examples': {}, 'choices_total': 0, 'digest': 0, 'tags': set()}
     harness = None
     ctxmp = multiprocessing.get_context('fork')
     fast_fail = bool(os.environ.get('VERIF_FAST_FAIL'))
@@ -302,6 +313,7 @@ def main(mod, argv=None):
             agg['nontrivial'] += out['nontrivial']
             agg['choices_total'] += out['choices_total']
             agg['shapes'] |= out['shapes']
+            agg['tags'] |= out['tags']
             for k in ('counts', 'faults', 'aborted'):
                 for kk, v in out[k].items():
                     agg[k][kk] = agg[k].get(kk, 0) + v
@@ -348,6 +360,7 @@ def main(mod, argv=None):
                                'choices_drawn': agg['choices_total']},
             'faults_fired': agg['faults'],
             'probes': {k: v for k, v in sorted(agg['counts'].items())},
+            'distinct_values_reached': distinct_by_kind(agg['tags']),
             'aborted_runs': {k: v for k, v in agg['aborted'].items()},
             'aborted_examples': agg['abort_examples'],
             'known_findings_seen': known_hits,
